@@ -1488,6 +1488,45 @@ fn sec_normalized(ctx: &mut Ctx, cal: &Calib) {
     }
 }
 
+/// cleartext signature framework: reading a document is linear in its size, whatever the number and
+/// length of its lines (the body reader looks for the signature block after every line)
+fn sec_cleartext(ctx: &mut Ctx, cal: &Calib) {
+    use pgp::composed::CleartextSignedMessage;
+    use pgp::types::Password;
+    let site = "composed/cleartext.rs CleartextSignedMessage::from_string (read_cleartext_body)";
+    let key = crate::keys::eddsa_legacy_ecdh(rand::thread_rng());
+    let top = ctx.pick(1usize << 19, 1usize << 22);
+    for (shape, line) in [("one-octet lines", "a\n"), ("crlf lines", "ab\r\n"), ("80-octet lines", "0123456789012345678901234567890123456789012345678901234567890123456789012345678\n"), ("dash lines", "- -\n")] {
+        let mut series = Vec::new();
+        let mut pts = Vec::new();
+        let mut size = 1usize << 13;
+        while size <= top {
+            let text: String = line.repeat(size / line.len());
+            // a document the library wrote itself (valid signature), and the bare framework around the
+            // same text without a signature block ("unexpected early end" after the text was scanned)
+            let signed = guarded(|| CleartextSignedMessage::sign(rand::thread_rng(), &text, &*key, &Password::empty()).and_then(|m| m.to_armored_string(Default::default())));
+            let Ok(Ok(doc)) = signed else {
+                ctx.oracle("no_crash", site, &format!("cleartext shape={shape} size={size}"), false, "could not sign / armor the text");
+                break;
+            };
+            let (out, s) = measure_min(3, Duration::from_millis(2), || {
+                guarded(|| CleartextSignedMessage::from_string(&doc).map(|(m, _)| m.text().len())).map(|r| r.map_err(|e| e.to_string()))
+            });
+            let input = format!("cleartext shape={shape} |text|={} lines={}", text.len(), size / line.len());
+            ctx.oracle("stream_returns_all", site, &input, matches!(out, Ok(Ok(_))), &format!("{out:?}"));
+            judge(ctx, cal, site, &input, doc.len(), &s);
+            pts.push((doc.len(), s.time.as_micros(), s.peak));
+            series.push((doc.len(), s.time));
+            let bare = format!("-----BEGIN PGP SIGNED MESSAGE-----\nHash: SHA256\n\n{text}");
+            let (_, s2) = measure_min(3, Duration::from_millis(2), || guarded(|| CleartextSignedMessage::from_string(&bare).is_ok()));
+            judge(ctx, cal, site, &format!("{input} (no signature block)"), bare.len(), &s2);
+            size *= 4;
+        }
+        judge_scaling(ctx, site, &format!("cleartext shape={shape}"), &series);
+        ctx.note(&format!("cleartext {shape}: (|doc|, time_us, peak) = {pts:?}"));
+    }
+}
+
 pub fn run(ctx: &mut Ctx) {
     // errors of the crate carry an optional backtrace; with RUST_BACKTRACE=1 in the environment
     // capturing/formatting it costs tens of MB per error, which is the debugging aid and not rpgp
@@ -1511,4 +1550,5 @@ pub fn run(ctx: &mut Ctx) {
     if want("stream") { sec_stream(ctx, &cal, &out_dir); }
     if want("armor") { sec_armor(ctx, &cal); }
     if want("norm") { sec_normalized(ctx, &cal); }
+    if want("cleartext") { sec_cleartext(ctx, &cal); }
 }
